@@ -125,6 +125,7 @@ def analyse_lt(ck, prog, fn, rule_prefix, oracle, quantities, time_name='time'):
             # separate them from sign conditions
             sign_conds, eq_gens = [], []
             bad_cond = None
+            rest = merge_tolerance_windows(rest)
             for e, op in rest:
                 snap = snap_assumption(e, op)
                 if snap == 'zero':
@@ -209,6 +210,61 @@ def analyse_lt(ck, prog, fn, rule_prefix, oracle, quantities, time_name='time'):
     n_div = motion.check_float_division(ck, rule_prefix + '-D4-float-division', fn)
     ck.floor('%s division sites' % fn.name, n_div, 1)
     return results
+
+
+def merge_tolerance_windows(conds):
+    """A tolerance test written without abs(): -c < X < c (both assumed) is ABS(X) < c, and either
+    X >= c or X <= -c alone is ABS(X) >= c (0 < c < 1, X without a constant term)."""
+    from fractions import Fraction
+    bounds = {}          # canonical X (as Sym) -> {'lt': [c], 'gt': [c]} meaning X < c / X > c
+    keep, idx = [], []
+    for e, op in conds:
+        if any(a[0] == 'f' and a[1] == 'ABS' for a in e.atoms()):
+            keep.append((e, op))          # already in the abs() form
+            continue
+        k = e.subs({a: Sym.const(0) for a in e.all_atoms() if a[0] == 'v'})
+        if not (k.is_const() and e.is_poly() is not None):
+            keep.append((e, op))
+            continue
+        kc = k.const_value() if k.is_const() else None
+        x = e - k if kc is not None else None
+        if kc is None or kc == 0 or abs(kc) >= 1 or x is None or x.is_const() or \
+                op not in ('<', '<=', '>', '>='):
+            keep.append((e, op))
+            continue
+        # x + kc op 0
+        canon, sgn = (x, 1) if repr(x) <= repr(-x) else (-x, -1)
+        # sgn*canon + kc op 0
+        if sgn == 1:
+            rel, c = op, -kc                     # canon op -kc
+        else:
+            rel = {'<': '>', '<=': '>=', '>': '<', '>=': '<='}[op]
+            c = kc                               # canon rel kc
+        bounds.setdefault(repr(canon), {'x': canon, 'items': []})['items'].append((rel, c))
+        idx.append((len(keep), repr(canon)))
+        keep.append(None)
+    out = [c for c in keep if c is not None]
+    for key, b in bounds.items():
+        x = b['x']
+        ups = [c for rel, c in b['items'] if rel in ('<', '<=') and c > 0]
+        los = [c for rel, c in b['items'] if rel in ('>', '>=') and c < 0]
+        outs_hi = [c for rel, c in b['items'] if rel in ('>', '>=') and c > 0]
+        outs_lo = [c for rel, c in b['items'] if rel in ('<', '<=') and c < 0]
+        used = False
+        if ups and los and min(ups) == -max(los):
+            out.append((mk_func('ABS', x) - min(ups), '<'))
+            used = True
+        elif outs_hi and not ups:
+            out.append((mk_func('ABS', x) - min(outs_hi), '>='))
+            used = True
+        elif outs_lo and not los:
+            out.append((mk_func('ABS', x) - (-max(outs_lo)), '>='))
+            used = True
+        if not used:
+            # not a tolerance window after all: give the original conditions back
+            for rel, c in b['items']:
+                out.append((x - c, rel))
+    return out
 
 
 def snap_arg(e):
